@@ -232,7 +232,7 @@ def check_tokens(R, prog):
         R.bad(F("TOKEN-TABLE", r, "comment marker", "the reader must skip lines starting with 'c'"))
 
 
-def check_writer(R, prog):
+def _shape_writer(R, prog):
     w = prog.func(MOD, "to_dimacs_file")
     fpar = w.params[0]
     stmts = stmts_in(w.node)
@@ -303,6 +303,21 @@ def check_writer(R, prog):
 
 
 WRITER_FUNCS = ("to_dimacs_file", "to_opb_file", "to_latex_string", "to_latex_document")
+
+
+def check_writer(R, prog):
+    from ._shared import with_semantics
+    from . import _writer_fold
+    w = prog.func("cnfgen.utils.parsedimacs", "to_dimacs_file")
+    try:
+        with_semantics(R, P, lambda T: _shape_writer(T, prog), _writer_fold.verdict(prog, "dimacs"),
+                       "to_dimacs_file writes comments, the problem line and one terminated row per clause", w, rule="WRITER-SEMANTICS",
+                       scope=lambda f: (f.function or "").startswith("to_dimacs_file"))
+    except AnalysisError as e:
+        if _writer_fold.verdict(prog, "dimacs")[0] is not True:
+            raise
+        R.ok("WRITER-SEMANTICS", "to_dimacs_file: %s" % _writer_fold.verdict(prog, "dimacs")[1], w.key)
+        R.unknown("WRITER-SEMANTICS", "to_dimacs_file shape", w.key, "shape not recognised (%s); the meaning of the fragment was confirmed by folding" % str(e)[:120])
 
 
 def check_write_through(R, prog, prop, targets):
